@@ -60,6 +60,14 @@ def _mk():
     # powers: python int >= 0 (all x0), python int < 0 and float exponents (x0 > 0)
     add('pow_nat', lambda x, c: x ** (int(c['r']) if int(c['r']) % 2 == 0 else np.int64(c['r'])), 'pownat', lambda x0, c: [], n=lambda c: int(c['r']),
         prm=lambda rng: {'r': rng.choice([0, 1, 2, 3, 4, 5, 5, 8, 16, 17, 21])}, cplx=True, f=None)
+    def _ipow(x, r):
+        z = UTPM(x.data.copy())         # the in-place form x **= r on a copy of the argument
+        z **= r
+        return z
+    add('ipow_nat', lambda x, c: _ipow(x, int(c['r'])), 'pownat', lambda x0, c: [], n=lambda c: int(c['r']),
+        prm=lambda rng: {'r': rng.choice([0, 1, 2, 3, 4, 5, 7, 8])}, cplx=True, f=None)
+    add('ipow_real', lambda x, c: _ipow(x, float(c['r'])), 'powreal', lambda x0, c: [x0 ** float(c['r'])], dom='pos',
+        params=lambda c: [c['r']], prm=lambda rng: {'r': rng.choice([0.5, 1.5, -0.5, 2.5, -2.0])}, f=None)
     add('pow_negint', lambda x, c: x ** int(c['r']), 'powreal', lambda x0, c: [x0 ** int(c['r'])], dom='pos',
         params=lambda c: [c['r']], prm=lambda rng: {'r': rng.choice([-1, -2, -3])}, f=None)
     add('pow_real', lambda x, c: x ** float(c['r']), 'powreal', lambda x0, c: [x0 ** float(c['r'])], dom='pos',
